@@ -11,6 +11,7 @@ import (
 
 	"github.com/voedger/voedger/pkg/appdef"
 	"github.com/voedger/voedger/pkg/appdef/builder"
+	"github.com/voedger/voedger/pkg/appdef/constraints"
 	"github.com/voedger/voedger/pkg/isequencer"
 	"github.com/voedger/voedger/pkg/istorage"
 	"github.com/voedger/voedger/pkg/istructs"
@@ -46,6 +47,8 @@ type viewSpec struct {
 	PK  []string `json:"pk"`
 	CC  []string `json:"cc"`
 	Var string   `json:"var,omitempty"` // "" | "string" | "bytes": trailing variable-size clustering column
+	// MaxLen constraint of the trailing column (0 = the builder's default, appdef.DefaultFieldMaxLength)
+	VarMax int `json:"varmax,omitempty"`
 }
 
 func (v viewSpec) coq(id uint64) string {
@@ -57,6 +60,13 @@ func (v viewSpec) coq(id uint64) string {
 		return kit.List(items)
 	}
 	return fmt.Sprintf("mkSchema %d %s %s %s", id, ks(v.PK), ks(v.CC), kit.Bool(v.Var != ""))
+}
+
+func maxLen(n int) []appdef.IConstraint {
+	if n <= 0 {
+		return nil
+	}
+	return []appdef.IConstraint{constraints.MaxLen(uint16(n))}
 }
 
 func qn(name string) appdef.QName { return appdef.NewQName("verif", name) }
@@ -94,9 +104,9 @@ func buildAppDef(views []viewSpec) appdef.IAppDefBuilder {
 		}
 		switch v.Var {
 		case "string":
-			vb.Key().ClustCols().AddField("s", appdef.DataKind_string)
+			vb.Key().ClustCols().AddField("s", appdef.DataKind_string, maxLen(v.VarMax)...)
 		case "bytes":
-			vb.Key().ClustCols().AddField("s", appdef.DataKind_bytes)
+			vb.Key().ClustCols().AddField("s", appdef.DataKind_bytes, maxLen(v.VarMax)...)
 		}
 		vb.Value().AddField("n", appdef.DataKind_int64, true)
 	}
